@@ -19,4 +19,6 @@ def run(rep, fb, tier):
     from ..rules import pybind as _pb, pyrules as _pr2
     _pb.rule_py_bindings(rep)
     _pr2.rule_py_call_signature(rep)
+    from ..rules import pyrules as _pr3
+    _pr3.rule_py_highlevel_returns(rep)
     rep.units = fb.units + ["src/awkward/operations/convert.py, highlevel.py, _util.py, partition.py (ast)"]
